@@ -39,6 +39,16 @@ CLAIMED = {
             LEVEL_TEXT, 'Bounds: width <=4 (5 thorough), ~45 arrangements (quick), 10 header sets with symbolic affixes. csv reader stubbed. ' + COMMON_NOTE, 'DESIGN.md section 2 C18'),
     'C19': ('bounded-exhaustive symbolic execution (CrossHair+z3) of suggest_pattern/suggest_merchants_rule -> parse_merchants -> match over a small alphabet and structured skeletons (each path holds one concrete description: the text reaches ast.parse / re.compile)',
             LEVEL_TEXT, 'Bounds: free descriptions <=2 (3 thorough) chars over a 10-character alphabet; 13 skeletons with words <=1 (2) chars. ' + COMMON_NOTE, 'DESIGN.md section 2 C19'),
+    'C11': ('bounded symbolic execution (CrossHair+z3) of the real cmd_run with collaborators replaced by recorders driven by symbolic per-source and global settings; real load_config with load_settings stubbed; rule mode checked by classifying probes with the rules actually handed to the parser',
+            LEVEL_TEXT, 'Wiring level only: yaml, argparse and report text are outside. Bounds: 1-3 sources x 4-6 boolean settings, rule mode, rules-file kind, views, output format. Stubs listed in the evidence. ' + COMMON_NOTE, 'DESIGN.md section 2 C11'),
+    'C12': ('bounded symbolic execution (CrossHair+z3) of the four renderers on stats from the real analyze_transactions with symbolic exact-real amounts; json.dumps replaced by a recorder to compare the embedded structures with the analysis; hostile-string parse-back by direct runs',
+            LEVEL_TEXT, 'Partly applicable: HTML/JSON parse-back for ALL strings cannot be decided here (json.dumps / html.parser are C and regex boundaries) - 14 hostile strings are run directly; formatted figures inside Markdown/text are opaque. ' + COMMON_NOTE, 'DESIGN.md section 2 C12'),
+    'C15': ('bounded symbolic execution (CrossHair+z3) of the real migration commands on a real scratch directory with interposed file-system primitives; symbolic crash index, fault index, partial-write mode and initial state; post-state assertions through the real load path',
+            LEVEL_TEXT, 'Bounds: crash/fault index 0..24, partial mode 0..2, 5 initial states. Contract: POSIX semantics of the interposed calls; buffered write reaches disk at close. Known finding listed: folder-layout migration is not resumable. ' + COMMON_NOTE, 'DESIGN.md section 2 C15'),
+    'C16': ('bounded symbolic execution (CrossHair+z3) of explain_description vs normalize_merchant on rules loaded from template files (symbolic description/amount) and of cmd_explain / cmd_discover / cmd_run with shared recorders (symbolic source flags)',
+            LEVEL_TEXT, 'Bounds: description <=2 chars, 3 templates, 2-3 sources. Four known findings listed in known_findings.json (explain stops at tag-only rules, ignores let/variables and most_specific; explain/discover treat supplemental sources as transactions). ' + COMMON_NOTE, 'DESIGN.md section 2 C16'),
+    'C20': ('bounded symbolic execution (CrossHair+z3) of the real commands on a real scratch budget whose initial state, arguments and command sequence are symbolic; frame condition over the byte contents of the tree before/after',
+            LEVEL_TEXT, 'Bounds: 6 state flags per command, sequences of 2 commands. The solver covers the product of states/flags/sequences; commands run concretely on each path. ' + COMMON_NOTE, 'DESIGN.md section 2 C20'),
     'C13': ('translation validation: Python AST and JS ESTree (acorn) of the classification functions translated to z3 (Float64, bounded ASCII tag lists) on every run; one equivalence query per output; cross-checked with z3 4.8.12 and cvc5',
             'Equivalence of the two programs for every double and every tag list within the bounds (unsat of the difference query); vacuity guard per bucket; models replayed on the real Python function and the real JS under node.',
             'Bounds: null or <=3 tags (4 thorough) of <=10 (12) ASCII chars. Trusted: engine/smt/symexec.py (validated against concrete runs of both real programs on every run), acorn, z3. If the source leaves the translator subset the check reports a harness error unless a fixed differential grid finds a replayable disagreement.', 'DESIGN.md section 2 C13'),
